@@ -238,10 +238,18 @@ void PCA(matrix *mx, int scaling, size_t npc, PCAMODEL* model, ssignal *s)
       }
       */
 
-      initDVector(&colvar);
-      MatrixColVar(E, colvar);
+      /* Step 1: select the column vector t with the largest sum of squares: for centred data this is the
+       * column of largest variance; for un-centred data (scaling -1) the variance ignores the column
+       * location, which dominates E'E, and a start vector (nearly) orthogonal to the leading axis lets
+       * the relative stopping rule fire on a non-leading component */
+      NewDVector(&colvar, E->col);
+      for(i = 0; i < E->row; i++){
+        for(j = 0; j < E->col; j++){
+          if(!FLOAT_EQ(E->data[i][j], MISSING, 1e-1))
+            colvar->data[j] += square(E->data[i][j]);
+        }
+      }
 
-      /* Step 1: select the column vector t with the largest column variance */
       j = 0;
       for(i = 1; i < E->col; i++){
         if(colvar->data[i] > colvar->data[j])
